@@ -24,7 +24,7 @@ BOUNDS = {
              'a remap rule with fractional and multi-target coefficients; correction descriptors over match tuples with '
              'realised atom indices < 24 (pair matched in both directions plus a third match); one 6-ring with symbolic '
              'element and bond type per position',
-    'thorough': '3 atoms x 3 patterns and 4 atoms x 3 patterns; descriptor matches of size 3 in every rotation; every ring start',
+    'thorough': '3 atoms x 3 patterns and 4 atoms x 2 patterns; descriptor matches of size 3 in every rotation; every ring start',
 }
 STUBS = ['fake Chem/molecule/atoms/bonds in Scheme.py (RDKit fakes); pattern objects whose GetQueryMatches returns an '
          'arbitrary symbolic match set (FakeMatcher)']
@@ -312,10 +312,9 @@ def obligations(tier, seed):
             for j in range(1, 24, 6):
                 obs.append(dict(name='descr3_i%d_j%d' % (i, j), func='h_descr', param=dict(N=24, size=3, fix=dict(i=i, j=j)), timeout=to))
     if not q:
-        for bits in range(8):
-            fix = dict(('m_p%d_a0' % p, bool(bits >> p & 1)) for p in range(3))
-            fix['use_remap'] = False
-            obs.append(dict(name='decompose_n4_P3_f%d' % bits, func='h_decompose', param=dict(n=4, P=3, fix=fix), timeout=to))
+        for bits in range(16):
+            fix = dict(m_p0_a0=bool(bits & 1), m_p1_a0=bool(bits & 2), m_p0_a1=bool(bits & 4), m_p1_a1=bool(bits & 8), use_remap=True)
+            obs.append(dict(name='decompose_n4_P2_f%d' % bits, func='h_decompose', param=dict(n=4, P=2, fix=fix), timeout=to))
     for s in range(6):
         if q and s % 3:
             continue            # quick: ring perception starting at atoms 0 and 3, thorough: every start
